@@ -139,6 +139,10 @@ func schemaOps(seed int64, n int, outDir string, streams string, replay string) 
 				groupHistory(s, g)
 			case "witness":
 				groupRecursionWitness(s, g)
+			case "dupkeys":
+				groupDupKeys(s, g)
+			case "structs":
+				groupStructs(s, g)
 			}
 		}
 	}
